@@ -155,16 +155,6 @@ def run_scenario(sc):
         host = sim.make_host("B", "10.0.0.2")
         zc = host.zc
         await zc.async_wait_for_start()
-        await sim.sleep_ms(sc.get("warmup", 0))
-        now0 = sim.loop.ms
-        for spec in sc.get("pre", []):
-            zc.cache.async_add_records([mk_record(spec, created=now0 - spec["age"])])
-        for h in sc.get("prehist", []):
-            q = DNSQuestion(h["name"], h["type"], const._CLASS_IN)
-            zc.question_history.add_question_at_time(q, float(now0 - h["age"]), {mk_record(s, created=now0 - 1) for s in h.get("known", [])})
-        info = AsyncServiceInfo(TYPE_, sc.get("name", NAME))
-        w = Watch(sim, zc, info)
-
         def deliver(ev):
             if ev["kind"] == "resp":
                 out = DNSOutgoing(const._FLAGS_QR_RESPONSE | const._FLAGS_AA)
@@ -178,6 +168,20 @@ def run_scenario(sc):
                     out.add_answer_at_time(mk_record(spec), 0)
             for p in out.packets():
                 host.inject(p, "10.0.0.9", 5353)
+
+        pre_ev = sc.get("preevents", [])
+        warm = max([sc.get("warmup", 0)] + [e["before"] for e in pre_ev])
+        for ev in pre_ev:
+            sim.loop.call_later((warm - ev["before"]) / 1000.0, lambda ev=ev: deliver(ev))
+        await sim.sleep_ms(warm)
+        now0 = sim.loop.ms
+        for spec in sc.get("pre", []):
+            zc.cache.async_add_records([mk_record(spec, created=now0 - spec["age"])])
+        for h in sc.get("prehist", []):
+            q = DNSQuestion(h["name"], h["type"], const._CLASS_IN)
+            zc.question_history.add_question_at_time(q, float(now0 - h["age"]), {mk_record(s, created=now0 - 1) for s in h.get("known", [])})
+        info = AsyncServiceInfo(TYPE_, sc.get("name", NAME))
+        w = Watch(sim, zc, info)
 
         for ev in sc.get("events", []):
             sim.loop.call_later(ev["at"] / 1000.0, deliver, ev)
@@ -202,6 +206,9 @@ def run_scenario(sc):
                 return await o_wait(self_, timeout, loop)
             w.cur["wait"] = timeout
             w.close()
+            if len(w.blocks) > 300:   # a lookup spinning without the clock advancing would never end the simulation
+                obs["spinning"] = True
+                raise asyncio.CancelledError()
             await o_wait(self_, timeout, loop)
             w.open("R", sim.loop.ms)
 
@@ -326,6 +333,8 @@ def oracle(sc, obs):
     name = sc.get("name", NAME)
     blocks = obs["blocks"]
     timeout = sc["timeout"]
+    if obs.get("spinning"):
+        return [("C18:never-returns", "the lookup went through 300 blocks without returning (spinning at one instant)")]
     if obs["never_returned"]:
         return [("C18:never-returns", "the lookup had not returned 30 s after its timeout")]
     # --- deadline
@@ -483,7 +492,7 @@ def gen_scenario(rng, idx):
                 ev["known"] = [srv(host)]
         else:
             recs = []
-            for kind in rng.sample(["srv", "txt", "a", "aaaa", "a2", "osrv", "oa", "bye"], rng.randint(1, 4)):
+            for kind in rng.sample(["srv", "txt", "a", "aaaa", "a2", "osrv", "oa", "bye", "xsrv", "xtxt"], rng.randint(1, 4)):
                 if kind == "srv":
                     recs.append(srv(host, rng.choice([0, 0, 1])))
                 elif kind == "osrv":
@@ -496,6 +505,14 @@ def gen_scenario(rng, idx):
                     recs.append(addr(host, False))
                 elif kind == "aaaa":
                     recs.append(addr(host, True))
+                elif kind == "xsrv":   # another instance's records must never be taken
+                    recs.append(srv(other, 1, name=rng.choice(["other._x._tcp.local.", "Inst2._x._tcp.local."])))
+                    recs[-1]["port"] = 99
+                elif kind == "xtxt":
+                    x = txt(1)
+                    x["name"] = "other._x._tcp.local."
+                    x["text"] = "03783d39"
+                    recs.append(x)
                 elif kind == "oa":
                     recs.append(addr(other, rng.random() < 0.3))
                 else:
@@ -505,6 +522,18 @@ def gen_scenario(rng, idx):
             rng.shuffle(recs)
             ev = {"at": at, "kind": "resp", "recs": recs}
         sc["events"].append(ev)
+    if rng.random() < 0.12:
+        # history reached by datagrams alone: announcements (possibly flapping between hosts) before the lookup
+        sc["warmup"] = 0
+        for _ in range(rng.randint(1, 4)):
+            recs = [srv(rng.choice(HOSTS), rng.choice([0, 1]))]
+            recs[0]["unique"] = True
+            recs[0]["ttl"] = rng.choice([120, 120, 4500, 2])
+            if rng.random() < 0.6:
+                recs.append(addr(rng.choice(HOSTS), rng.random() < 0.3))
+            if rng.random() < 0.3:
+                recs.append(txt(0))
+            sc.setdefault("preevents", []).append({"before": rng.choice([9500, 8000, 6000, 4000, 2500, 1500, 999, 500, 1]), "kind": "resp", "recs": recs})
     if rng.random() < 0.15:
         sc["prehist"].append({"name": rng.choice([NAME, host]), "type": rng.choice([33, 16, 1, 28]), "age": rng.choice([0, 1, 500, 998, 999, 1000]), "known": []})
     return sc
@@ -523,16 +552,21 @@ def nontriv_key(sc, obs):
 def check_cases(cases, res, ctx, label):
     """run scenarios on the implementation, diff with the model, evaluate the oracle"""
     runs = []
+    bad = 0
     for sc in cases:
         try:
             obs = run_scenario(sc)
         except Exception as ex:  # the simulator / harness failing is not a verdict about the code
             raise RuntimeError("scenario crashed: %r on %s" % (ex, json.dumps(sc)[:400]))
         runs.append((sc, obs))
+        if obs.get("spinning") or obs["never_returned"]:
+            bad += 1
+            if bad >= 20:      # a tree on which lookups do not return: enough evidence, do not spin through the whole budget
+                break
     model = None
     if ctx["driver_ok"]:
         try:
-            model = C.run_driver([model_line(sc, obs) for sc, obs in runs])
+            model = C.run_driver(["ping" if obs.get("spinning") else model_line(sc, obs) for sc, obs in runs])
         except C.DriverUnavailable as ex:
             res.notes.append("driver unavailable: %s" % ex)
     for i, (sc, obs) in enumerate(runs):
@@ -545,7 +579,7 @@ def check_cases(cases, res, ctx, label):
             res.sample({"scenario": {k: sc[k] for k in ("timeout", "forced")}, "blocks": [impl_line(b) for b in obs["blocks"]][:6]})
         for sig, what in oracle(sc, obs):
             res.violate(sig, what, sc)
-        if model is not None:
+        if model is not None and not obs.get("spinning"):
             impl = [impl_line(b) for b in obs["blocks"]]
             mod = model[i].split(" | ")
             if impl != mod:
@@ -558,7 +592,7 @@ def check_cases(cases, res, ctx, label):
 def run(ctx):
     res = C.Result("C18")
     rng = C.rng_for(ctx["seed"], "c18")
-    n = C.Budget(ctx["tier"], 700, 9000).n
+    n = C.Budget(ctx["tier"], 6000, 150000).n
     if ctx["widened"]:
         n *= 4
     corpus = [body.get("case", body) for _, body in C.load_corpus("C18")]
